@@ -65,3 +65,7 @@ def ghost_get(key, default=None):
 
 def symbolic_run():
     return False
+
+
+def uf_str(name, arg):
+    raise RuntimeError('uninterpreted functions exist in symbolic runs only (guard with symbolic_run())')
